@@ -3352,7 +3352,9 @@ func (bc *Blockchain) GetTestHistoricVM(t trigger.Type, tx *transaction.Transact
 	}
 	var mode = mpt.ModeAll
 	if bc.config.RemoveUntraceableBlocks {
-		if height, mtb := bc.BlockHeight(), bc.GetMaxTraceableBlocks(); height > mtb && b.Index < height-mtb {
+		// The invocation is based on the state of b.Index-1, it must not be
+		// below the GC target.
+		if height, mtb := bc.BlockHeight(), bc.GetMaxTraceableBlocks(); height > mtb && b.Index <= height-mtb {
 			return nil, fmt.Errorf("state for height %d is outdated and removed from the storage", b.Index)
 		}
 		// Nodes are stored with reference counters, but old states are still
